@@ -8,7 +8,8 @@ import eqlgen as G
 from core import Case, CheckBroken
 
 PID = "C01"
-LEAN_MODULES = ["KrroodVerif.Props.C01", "KrroodVerif.Props.C01Union", "KrroodVerif.Props.C01Typed"]
+LEAN_MODULES = ["KrroodVerif.Props.C01", "KrroodVerif.Props.C01Union", "KrroodVerif.Props.C01Typed",
+                "KrroodVerif.Props.C01Quant"]
 THEOREMS = [
     "KrroodVerif.Eql.C01_cover",
     "KrroodVerif.Eql.C01_sound_complete_partial",
@@ -34,6 +35,24 @@ THEOREMS = [
     "KrroodVerif.Eql.C01_cex_orOfExists",
     "KrroodVerif.Eql.C01_cex_emptyDomain",
     "KrroodVerif.Eql.C01_cex_flattenNot",
+    # quantified conditions (Props/C01Quant.lean; lemmas Lemmas/EqlQuant.lean)
+    "KrroodVerif.Eql.C01_quant_sound_complete_partial",
+    "KrroodVerif.Eql.C01_exists_sound_complete_partial",
+    "KrroodVerif.Eql.C01_forall_sound_complete_partial",
+    "KrroodVerif.Eql.C01_not_exists_sound_complete_partial",
+    "KrroodVerif.Eql.C01_not_forall_sound_complete_partial",
+    "KrroodVerif.Eql.C01_forall_empty_error",
+    "KrroodVerif.Eql.ql_qinv",
+    "KrroodVerif.Eql.exists_qinv",
+    "KrroodVerif.Eql.forAll_qinv",
+    "KrroodVerif.Eql.closed_eval",
+    "KrroodVerif.Eql.satE_congr",
+    "KrroodVerif.Eql.C01_quant_need_E1",
+    "KrroodVerif.Eql.C01_quant_need_E2",
+    "KrroodVerif.Eql.C01_quant_need_A1",
+    "KrroodVerif.Eql.C01_quant_need_A2",
+    "KrroodVerif.Eql.C01_quant_need_shape",
+    "KrroodVerif.Eql.C01_quant_need_last",
 ]
 MODEL_FUNCTION = "Eql.evalQuery / Eql.eval / Eql.build (Model/Eql.lean)"
 TRUSTED = [
